@@ -8,6 +8,8 @@ import (
 	"encoding/hex"
 	"encoding/json"
 	"fmt"
+	"io"
+	"os"
 	"strings"
 	"testing"
 	"unicode/utf8"
@@ -134,6 +136,12 @@ func checkInput(rec *hx.Recorder, x []byte, be bool) (sig, msg string, ok, accep
 			s = "D13:file-id-type-changed"
 		}
 		return s, fmt.Sprintf("Encode failed on a File that Decode accepted: %v", eerr), false, true
+	}
+	// the same File once more, into another kind of writer: same bytes
+	if msg := gen.CheckWriterKind(os.Getenv("VERIF_BUILD"), out1.Len(), out1.Bytes(), func(w io.Writer) error {
+		return fit.Encode(w, f1, order(be))
+	}); msg != "" {
+		return "", "encoding the same File again: " + msg, false, true
 	}
 	if ierr := fit.CheckIntegrity(bytes.NewReader(out1.Bytes()), false); ierr != nil {
 		return "", fmt.Sprintf("re-encoded output fails CheckIntegrity: %v\nout: %s", ierr, hx.Hex(out1.Bytes())), false, true
